@@ -43,6 +43,13 @@ func (opts CollectJSONOptions) validate() error {
 	return nil
 }
 
+// parseError marks an error of the JSON parser as what it is: the
+// parser reports a line that ends inside a literal (`{"a":tru`) as a
+// bare io.EOF, which must not be taken for the end of the input.
+func parseError(err error) error {
+	return errors.Errorf("problem parsing json document: %v", err)
+}
+
 func (opts CollectJSONOptions) getSource() (<-chan *birch.Document, <-chan error) {
 	out := make(chan *birch.Document)
 	errs := make(chan error, 2)
@@ -57,7 +64,7 @@ func (opts CollectJSONOptions) getSource() (<-chan *birch.Document, <-chan error
 				doc := &birch.Document{}
 				err := bson.UnmarshalExtJSON(stream.Bytes(), false, doc)
 				if err != nil {
-					errs <- err
+					errs <- parseError(err)
 					return
 				}
 				out <- doc
@@ -83,7 +90,7 @@ func (opts CollectJSONOptions) getSource() (<-chan *birch.Document, <-chan error
 				doc := &birch.Document{}
 				err := bson.UnmarshalExtJSON(stream.Bytes(), false, doc)
 				if err != nil {
-					errs <- err
+					errs <- parseError(err)
 					return
 				}
 				out <- doc
@@ -112,7 +119,7 @@ func (opts CollectJSONOptions) getSource() (<-chan *birch.Document, <-chan error
 				doc := birch.NewDocument()
 				err := bson.UnmarshalExtJSON([]byte(line.String()), false, doc)
 				if err != nil {
-					errs <- err
+					errs <- parseError(err)
 					return
 				}
 				out <- doc
